@@ -268,7 +268,7 @@ def correspondence(c, tag, n_traces, steps):
 # ---------------------------------------------------------------------------------------------
 MONITORS = ["corr", "c12_one_timer", "c02_save_before_emit", "c02_one_signature_per_lifetime",
             "c02_one_signature_ever", "c02_one_emission_ever", "c08_targets", "c08_rounds", "c08_finalize", "c08_once_per_round",
-            "sm_responsive", "c08_stale_view_inert", "c10_sm_resume", "c07_sm_valset", "c08_height_after_fin"]
+            "sm_responsive", "c08_stale_view_inert", "c10_sm_resume", "c07_sm_valset", "c08_height_after_fin", "c07_sm_considered_match"]
 
 EVAL_HEADER = """From Coq Require Import List NArith String Bool.
 From GV Require Import Base.Ints Gen.Math Gen.StepSM Model.StateMachine Model.SMWire Model.SMWalk Model.SMScenarios Monitors.SMm.
@@ -287,9 +287,9 @@ Definition judge (es : list event) (sg : bool) (impl : list (list (list N) * lis
   let t : list obs := combine (map enc_event es) (map (fun p => fst p ++ snd p) impl) in
   let tm : list obs := combine (map enc_event es) (map (fun p => fst p ++ snd p) model) in
   map nbb [outs_eqb model impl; c12_one_timer t; c02_save_before_emit t; c02_one_signature_per_lifetime t;
-           c02_one_signature_ever t; c02_one_emission_ever t; c08_targets t; c08_rounds t; c08_finalize t; c08_once_per_round t; sm_responsive t; c08_stale_view_inert t; c10_sm_resume t; c07_sm_valset t; c08_height_after_fin t]
+           c02_one_signature_ever t; c02_one_emission_ever t; c08_targets t; c08_rounds t; c08_finalize t; c08_once_per_round t; sm_responsive t; c08_stale_view_inert t; c10_sm_resume t; c07_sm_valset t; c08_height_after_fin t; c07_sm_considered_match t]
   ++ map nbb [c12_one_timer tm; c02_save_before_emit tm; c02_one_signature_per_lifetime tm;
-              c02_one_signature_ever tm; c02_one_emission_ever tm; c08_targets tm; c08_rounds tm; c08_finalize tm; c08_once_per_round tm; sm_responsive tm; c08_stale_view_inert tm; c10_sm_resume tm; c07_sm_valset tm; c08_height_after_fin tm].
+              c02_one_signature_ever tm; c02_one_emission_ever tm; c08_targets tm; c08_rounds tm; c08_finalize tm; c08_once_per_round tm; sm_responsive tm; c08_stale_view_inert tm; c10_sm_resume tm; c07_sm_valset tm; c08_height_after_fin tm; c07_sm_considered_match tm].
 """
 
 
@@ -323,6 +323,14 @@ def judge_walked(c, tag, cases, impls, events_of=None, cuts=None):
                 d["model:" + n] = bool(row[len(MONITORS) + i])
             res.append(d)
     return res
+
+
+def catchup_valsets_empty(name, evs, fl):
+    """The known defect of the catch-up branch (finding catchup-leaves-validator-sets-empty, C08 / C07): after a round entrance
+    answered with a committed header the state machine's validator-set bookkeeping stays empty.  True when a failure of one of the
+    validator-set monitors on this history is that defect: the history contains a committed-header response and the MODEL's own run
+    fails the monitor too."""
+    return name in ("c07_sm_valset", "c07_sm_considered_match") and any(e[0] == 4 for e in evs) and fl.get("model:" + name) is False
 
 
 WITNESS_KEYS = {
@@ -421,6 +429,8 @@ def run_scenarios(c, binary, tag, clauses, classify):
         for name in clauses:
             if not fl[name]:
                 key = classify(name, [e for e, _ in traces[i]], fl)
+                if key is None:     # a failure this property's check leaves to the check that owns the finding
+                    continue
                 c.report(key, "monitor %s is false on the implementation's observations of scripted history %d (Model/SMScenarios.v)" % (name, i),
                          {"monitor": name, "scenario": i, "model_monitor_value": fl.get("model:" + name), "how": "bin/h_sm < replay input",
                           "harness_input": harness_input(1, traces[i]), "trace": render(traces[i], impl[i])})
@@ -571,6 +581,8 @@ def walked(c, pid, binary, tag, n_traces, steps, clauses, classify, stale=False)
             if not fl[name]:
                 evs = [e for e, _ in traces[i]]
                 key = classify(name, evs, fl)
+                if key is None:     # a failure this property's check leaves to the check that owns the finding
+                    continue
                 c.report(key, "monitor %s is false on the implementation's observations of a generated history" % name,
                          {"monitor": name, "model_monitor_value": fl.get("model:" + name), "signer": cases[i][0],
                           "how": "bin/h_sm < replay input", "harness_input": harness_input(cases[i][0], traces[i]),
